@@ -12,6 +12,11 @@ TEXTS = [
  "$A if $A else\n", "\"unterminated", "'''unterminated", "$", "$$A", "$1", "a$A", "$A$A", "print($A)\n$A", "try:\n  1/0\nexcept:\n  $A", "yield $A", "class X: pass\nX", "global q\nq = 1\nq",
  "$A\n\n\n", "\n\n$A", "# only comment", "", "   ", "$A == 1 and \\\n $A < 3", "x: int = $A\nx", "assert $A\n'ok'", "del rec\n1", "with open('x') as f:\n  1", "$A.__class__.__name__",
  "$B.upper() + str($A)", "[r.A for r in T.all]", "sum(r.A for r in T.all) + $A", "$B[0] if $B else ''", "{'k': $A}['k']", "$A // 2 + $A % 2", "not $A", "-$A", "$A ** 2",
+ # multi-line string literals below AST nodes of every kind (comprehension, arguments, match_case, withitem, keyword, handler ...)
+ "[c for c in '''a\n b''']", "(lambda s='''a\n b''': s + str($A))()", "''.join(c for c in '''x\n  y''' if c != '''\n''')",
+ "match $A:\n  case 1:\n    '''a\n b'''\n  case _:\n    'z'", "import contextlib\nwith contextlib.nullcontext('''a\n b''') as s:\n  return s",
+ "dict(k='''a\n b''')['k']", "try:\n  1/0\nexcept ZeroDivisionError:\n  '''a\n b'''", "{'''k\n''': $A}", "x = [1 for _ in range(2) if '''a\n b''']\nlen(x)",
+ "def g(a, b='''p\n q'''):\n  return b\ng(1)", "('''a\n b''' if $A else '''c\n  d''')", "['''a\n b''', $A][0]",
  "'a' \\\n 'b'", "\"\"\"$A\"\"\" + 'z'", "x = $A\ny = x + 1\ny if y > 2 else x", "$A\n# tail comment", "max($A, 1,\n    2)",
 ]
 A_VALS = [1, 2, 0, None, 5]
